@@ -189,7 +189,10 @@ def interval(rng, cols, kind):
         a = int(rng.integers(-3, 4))
         return a, a
     if kind == "wide":
-        return -int(rng.integers(cols // 2, cols)), int(rng.integers(cols // 2, cols))
+        return -int(rng.integers(cols // 2, cols + 4)), int(rng.integers(cols // 2, cols + 4))
+    if kind == "outside":
+        a = int(rng.integers(cols - 2, cols + 3)) * int(rng.choice([-1, 1]))
+        return (a, a + int(rng.integers(0, 3))) if a > 0 else (a - int(rng.integers(0, 3)), a)
     raise ValueError(kind)
 
 
